@@ -104,6 +104,7 @@ type GenesisSpec struct {
 	Emission   string
 	PrevReward types.RewardPrice
 	Mutate     func(*types.AppState)
+	ValOwnersFrom int // if > 0: candidate i is owned by account ValOwnersFrom+i (accounts that never transact)
 }
 
 type Node struct {
@@ -177,6 +178,9 @@ func buildGenesis(spec *GenesisSpec) (types.AppState, []Acct, []Val) {
 			stake = spec.Stakes[i]
 		}
 		owner := accts[i%len(accts)].Addr
+		if spec.ValOwnersFrom > 0 {
+			owner = accts[(spec.ValOwnersFrom+i)%len(accts)].Addr
+		}
 		st.Candidates = append(st.Candidates, types.Candidate{
 			ID: uint64(i + 1), RewardAddress: owner, OwnerAddress: owner, ControlAddress: owner,
 			TotalBipStake: stake.String(), PubKey: vals[i].Pub, Commission: 10,
@@ -262,6 +266,8 @@ type BlockOpts struct {
 	Absent   map[int]bool // validator indexes that did not sign the last block
 	Evidence []int        // validator indexes with byzantine evidence
 	Dt       time.Duration
+	PreTx    func(i int, raw []byte)            // called right before DeliverTx of transaction i
+	PostTx   func(i int, raw []byte, r TxResult) // called right after it
 }
 
 func (n *Node) guard(where string, f func()) (ok bool) {
@@ -310,7 +316,10 @@ func (n *Node) Block(txs [][]byte, o *BlockOpts) *BlockResult {
 		res.Panic = n.Panics[len(n.Panics)-1]
 		return res
 	}
-	for _, tx := range txs {
+	for txi, tx := range txs {
+		if o.PreTx != nil {
+			o.PreTx(txi, tx)
+		}
 		var r abci.ResponseDeliverTx
 		if !n.guard("DeliverTx", func() { r = n.App.DeliverTx(abci.RequestDeliverTx{Tx: tx}) }) {
 			res.Panic = n.Panics[len(n.Panics)-1]
@@ -323,6 +332,9 @@ func (n *Node) Block(txs [][]byte, o *BlockOpts) *BlockResult {
 			}
 		}
 		res.Txs = append(res.Txs, tr)
+		if o.PostTx != nil {
+			o.PostTx(txi, tx, tr)
+		}
 	}
 	if !n.guard("EndBlock", func() { res.Updates = n.App.EndBlock(abci.RequestEndBlock{Height: h}).ValidatorUpdates }) {
 		res.Panic = n.Panics[len(n.Panics)-1]
@@ -417,3 +429,47 @@ func sortedStrs(m map[string]bool) []string {
 func abciDeliver(raw []byte) abci.RequestDeliverTx { return abci.RequestDeliverTx{Tx: raw} }
 
 func newSyncMap() *sync.Map { return &sync.Map{} }
+
+// ---- a block driven step by step (transactions generated against the in-flight state) ----
+
+func (n *Node) BeginOnly(h uint64) bool {
+	n.Time = n.Time.Add(5 * time.Second)
+	var votes []abci.VoteInfo
+	for _, v := range n.curValidators() {
+		addr := make([]byte, len(v.tm))
+		copy(addr, v.tm[:])
+		votes = append(votes, abci.VoteInfo{Validator: abci.Validator{Address: addr, Power: 1}, SignedLastBlock: true})
+	}
+	return n.guard("BeginBlock", func() {
+		n.App.BeginBlock(abci.RequestBeginBlock{Header: tmproto.Header{Height: int64(h), Time: n.Time, ChainID: "verif"},
+			LastCommitInfo: abci.LastCommitInfo{Votes: votes}})
+	})
+}
+
+func (n *Node) DeliverOnly(raw []byte) (TxResult, bool) {
+	var r abci.ResponseDeliverTx
+	if !n.guard("DeliverTx", func() { r = n.App.DeliverTx(abci.RequestDeliverTx{Tx: raw}) }) {
+		return TxResult{}, false
+	}
+	tr := TxResult{Code: r.Code, Gas: r.GasUsed, Tags: map[string]string{}, Log: r.Log}
+	for _, e := range r.Events {
+		for _, a := range e.Attributes {
+			tr.Tags[string(a.Key)] = string(a.Value)
+		}
+	}
+	return tr, true
+}
+
+func (n *Node) EndAndCommit(h uint64) bool {
+	if !n.guard("EndBlock", func() { n.App.EndBlock(abci.RequestEndBlock{Height: int64(h)}) }) {
+		return false
+	}
+	var hash string
+	if !n.guard("Commit", func() { hash = fmt.Sprintf("%x", n.App.Commit().Data) }) {
+		return false
+	}
+	n.Height = int64(h)
+	n.Hashes[int64(h)] = hash
+	n.curValidators()
+	return true
+}
